@@ -31,31 +31,37 @@ struct Access {
     std::function<Real(const State&)> pe;
     std::function<Real(const State&)> relRot;   // optional: |relative angular velocity| of the two contacting bodies (site predicate)
     std::string siteId;
+    std::function<Real(const State&)> maxStep;  // optional: largest |t| keeping q + t*qdot away from the element's non-smooth points (state: direction's speeds, Velocity stage)
     bool peAtPositionStage = false;   // element documented to report its energy from a state realized to Stage::Position only
 };
 struct FD { Real d = 0, err = Infinity, h = 0; };
 
 // dPE/dt along q(t) = q + t*qdotDir (u of the state kept), self-validated
-FD dPEalong(const Access& a, const State& s, const Vector& qdotDir, Real scale) {
+FD dPEalong(const Access& a, const State& s, const Vector& qdotDir, Real scale, Real tmax, Real posNoise) {
     Real speed = 0; for (int i = 0; i < qdotDir.size(); ++i) speed = std::max(speed, std::fabs(qdotDir[i]));
     FD best; if (speed == 0) { best.d = 0; best.err = 0; return best; }
     const Vector q0 = s.getQ();
     auto peAt = [&](Real t) { State w = s; w.updQ() = q0 + t * qdotDir; a.sys->realize(w, Stage::Dynamics); return a.pe(w); };
     const Real steps[] = {1e-4, 1e-5, 1e-6, 1e-7};
+    if (!(tmax > 1e-11)) return best;        // on (or within round-off of) a non-smooth point: not differentiable, err stays infinite
+    Real lastH = 0;
     for (Real h0 : steps) {
-        Real h = h0 / std::max(Real(1), speed);
+        Real h = std::min(h0 / std::max(Real(1), speed), tmax / 2);     // the stencil reaches +-2h
+        if (h == lastH) break; lastH = h;
         Real p1 = peAt(h), m1 = peAt(-h), p2 = peAt(2 * h), m2 = peAt(-2 * h), ph = peAt(h / 2), mh = peAt(-h / 2);
         Real dA = (8 * (p1 - m1) - (p2 - m2)) / (12 * h), dB = (8 * (ph - mh) - (p1 - m1)) / (6 * h);
         Real mag = std::max(std::max(std::fabs(p2), std::fabs(m2)), std::max(std::fabs(p1), std::fabs(m1)));
-        Real err = std::fabs(dA - dB) + 40 * EPS * mag / h;
+        Real err = std::fabs(dA - dB) + (40 * EPS * mag + posNoise) / h;   // posNoise: |force| * eps * L -- the energy inherits the round-off of the positions
         if (!(err >= 0)) err = Infinity;     // NaN
+        static const bool dbg = getenv("C12_DEBUG_FD") != nullptr;
+        if (dbg) fprintf(stderr, "  h=%.3g dA=%.12g dB=%.12g err=%.3g pe: %.12g %.12g %.12g | %.12g %.12g %.12g\n", h, dA, dB, err, m2, m1, mh, ph, p1, p2);
         if (err < best.err) { best.d = dB; best.err = err; best.h = h; }
         if (best.err <= 1e-8 * (scale + std::fabs(best.d))) break;
     }
     return best;
 }
 
-struct Power { Real P = 0, scale = 0, relRot = 0, floor = 0; Vector qdot; };
+struct Power { Real P = 0, scale = 0, relRot = 0, floor = 0, tmax = Infinity; Vector qdot; };
 // power of the (frozen) force set (bf, mf) for generalized speeds udir at the configuration of s
 Power powerAlong(const Access& a, const State& s, const Vector_<SpatialVec>& bf, const Vector& mf, const Vector& udir) {
     Power p; State w = s; w.updU() = udir; a.sys->realize(w, Stage::Velocity); p.qdot = w.getQDot();
@@ -68,8 +74,9 @@ Power powerAlong(const Access& a, const State& s, const Vector_<SpatialVec>& bf,
         for (MobilizedBodyIndex b(0); b < a.matter->getNumBodies(); ++b) { const MobilizedBody& mb = a.matter->getMobilizedBody(b); const SpatialVec& V = mb.getBodyVelocity(w);
             vmax = std::max(vmax, V[1].norm() + V[0].norm() * (1 + mb.getBodyOriginLocation(w).norm())); fsum += bf[b][0].norm() + bf[b][1].norm(); }
         for (int i = 0; i < mf.size(); ++i) fsum += std::fabs(mf[i]);
-        p.floor = 1000 * EPS * fsum * vmax + 1e-20 * (1 + vmax) * (1 + vmax); }   // absolute part: forces that cancel on one body (same body twice) leave eps^2-level power
+        p.floor = 1000 * EPS * fsum * vmax + 1e-14 * (1 + vmax) * (1 + vmax); }   // absolute part: forces that cancel on one body (same body twice) leave eps^2-level power
     if (a.relRot) p.relRot = a.relRot(w);
+    if (a.maxStep) p.tmax = a.maxStep(w);
     return p;
 }
 
@@ -90,8 +97,12 @@ void judge(pbt::Ctx& ctx, const std::string& name, const Access& a, State& s, Cl
     }
     ctx.label(name + ((cls == Conservative || dampingIsZero) ? "/class:conservative" : "/class:dissipative"));
     const Vector u = s.getU();
+    Real posNoise = 0;
+    {   Real L = 3, fsum = 0; for (MobilizedBodyIndex b(0); b < a.matter->getNumBodies(); ++b) { L = std::max(L, 3 + a.matter->getMobilizedBody(b).getBodyOriginLocation(s).norm()); fsum += bf[b][0].norm() + bf[b][1].norm(); }
+        for (int i = 0; i < mf.size(); ++i) fsum += std::fabs(mf[i]);
+        posNoise = 10 * EPS * L * fsum; }
     Power p = powerAlong(a, s, bf, mf, u);
-    FD fd = dPEalong(a, s, p.qdot, p.scale);
+    FD fd = dPEalong(a, s, p.qdot, p.scale, p.tmax, posNoise);
     const Real scale = p.scale + std::fabs(fd.d);
     bool active = scale > 0 || pe0 != 0; ctx.label(name + (active ? "/active" : "/inactive"));
     bool unum = false; for (int i = 0; i < u.size(); ++i) if (u[i] != 0) unum = true;
@@ -112,7 +123,7 @@ void judge(pbt::Ctx& ctx, const std::string& name, const Access& a, State& s, Cl
         const int nu = u.size(); int checked = 0, unreliable = 0;
         for (int i = 0; i < nu && i < 24 && !ctx.failed; ++i) {
             Vector e(nu); e = 0; e[i] = 1;
-            Power pi = powerAlong(a, s, bf, mf, e); FD fi = dPEalong(a, s, pi.qdot, pi.scale);
+            Power pi = powerAlong(a, s, bf, mf, e); FD fi = dPEalong(a, s, pi.qdot, pi.scale, pi.tmax, posNoise);
             Real sc = pi.scale + std::fabs(fi.d); if (sc == 0) continue;
             if (fi.err > 1e-4 * sc) { ++unreliable; continue; }
             if (!a.siteId.empty() && pi.relRot > 1e-12 && ctx.known(a.siteId)) { ctx.label("excluded:" + a.siteId); continue; }
@@ -140,6 +151,7 @@ void contactCase(const pbt::Tape& t, pbt::Ctx& ctx) {
     Access a; a.sys = &sn->m->sys; a.matter = &sn->m->matter;
     a.forces = [S0](const State& s, Vector_<SpatialVec>& bf, Vector& mf) { S0->elementForces(s, bf, mf); };
     a.pe = [S0](const State& s) { return S0->elementPE(s); };
+    { const cgen::Scenario* scp = &sc; a.maxStep = [scp, S0](const State& w) { return cgen::maxSmoothStep(*scp, *S0, w); }; }
     auto lossFree = [](const cgen::Material& m) { return m.c == 0; };
     auto fric = [](const cgen::Material& x, const cgen::Material& y) { return (x.us > 0 && y.us > 0) || (x.ud > 0 && y.ud > 0) || (x.uv > 0 && y.uv > 0); };
     bool zeroDamping; Class cls = Dissipative;
@@ -183,6 +195,10 @@ void forcegenCase(const pbt::Tape& t, pbt::Ctx& ctx) {
     if (fs.kind == forcegen::LinearBushing) {   // documented singularity of the bushing coordinates (middle angle near 90 degrees)
         Transform X_GF = m.mb[fs.b1].getBodyTransform(s) * fs.X1, X_GM = m.mb[fs.b2].getBodyTransform(s) * fs.X2; Mat33 R = (~X_GF.R()).asMat33() * X_GM.R().asMat33();
         if (std::fabs(R(0, 2)) > 0.985) { ctx.reject("bushing-near-singular"); return; }
+        // the bushing's first and third angles live in (-pi, pi]: at the wrap the energy 1/2 k q^2 has a symmetric kink that a central
+        // difference cannot see (both Richardson estimates give 0); non-smooth point, excluded by classification
+        Vec3 ang = forcegen::bodyXYZ(R); const Real Pi_ = 3.141592653589793;
+        if (std::fabs(ang[0]) > Pi_ - 0.02 || std::fabs(ang[2]) > Pi_ - 0.02) { ctx.reject("bushing-angle-wrap"); return; }
     }
     Access a; a.sys = &m.sys; a.matter = &m.matter; Force f = e.force;
     a.forces = [f](const State& st, Vector_<SpatialVec>& bf, Vector& mf) { Vector_<Vec3> pf; f.calcForceContribution(st, bf, pf, mf); };
@@ -195,6 +211,10 @@ void forcegenCase(const pbt::Tape& t, pbt::Ctx& ctx) {
         case forcegen::MobilityLinearStop: cls = Dissipative; zeroDamping = fs.d == 0; break;
         case forcegen::LinearBushing: cls = Dissipative; zeroDamping = fs.bc.norm() == 0; break;
         default: cls = PeZeroOnly; break;
+    }
+    if (fs.kind == forcegen::MobilityLinearStop) {   // engagement of a stop is a non-smooth point of its energy
+        const MobilizedBody mbS = m.mb[fs.mob]; const int cq = fs.coord; const Real lo = fs.qlo, hi = fs.qhi;
+        a.maxStep = [mbS, cq, lo, hi](const State& w) { Real q = mbS.getOneQ(w, cq), qd = std::fabs(mbS.getOneQDot(w, cq)), mg = std::min(std::fabs(q - lo), std::fabs(q - hi)); return qd > 0 ? 0.1 * mg / qd : Infinity; };
     }
     if (fs.kind == forcegen::MobilityLinearStop) { Real q = m.mb[fs.mob].getOneQ(s, fs.coord); ctx.label(q > fs.qhi ? "MobilityLinearStop/upper-engaged" : q < fs.qlo ? "MobilityLinearStop/lower-engaged" : "MobilityLinearStop/inside"); }
     judge(ctx, name, a, s, cls, zeroDamping);
@@ -225,6 +245,10 @@ void cableCase(const pbt::Tape& t, pbt::Ctx& ctx) {
     Access a; a.sys = &m.sys; a.matter = &m.matter; Force f = spring;
     a.forces = [f](const State& st, Vector_<SpatialVec>& bf, Vector& mf) { Vector_<Vec3> pf; f.calcForceContribution(st, bf, pf, mf); };
     a.pe = [f](const State& st) { return f.calcPotentialEnergyContribution(st); };
+    {   const MultibodySystem* sysp = &m.sys; const SimbodyMatterSubsystem* mp = &m.matter; const Real slack = x0;
+        a.maxStep = [path, sysp, mp, slack](const State& w) { Real L = path.getCableLength(w), vmax = 0;
+            for (MobilizedBodyIndex b(1); b < mp->getNumBodies(); ++b) { const SpatialVec& V = mp->getMobilizedBody(b).getBodyVelocity(w); vmax = std::max(vmax, V[1].norm() + 2 * V[0].norm()); }
+            return vmax > 0 ? 0.1 * std::fabs(L - slack) / (4 * vmax) : Infinity; }; }
     m.sys.realize(s, Stage::Dynamics); ctx.label(spring.getTension(s) > 0 ? "CableSpring/taut" : "CableSpring/slack"); ctx.label(via ? "CableSpring/via-point" : "CableSpring/straight");
     judge(ctx, name, a, s, Dissipative, c == 0);
 }
